@@ -122,13 +122,98 @@ def revisit_family():
     return out
 
 
+FALSY_DOCS = ["[]\n", "false\n", "0\n", "''\n", "{}\n", "~\n", "# only a comment\n", "", "\n\n", "0.0\n", "no\n", "[0]\n", "x\n"]
+
+
+def falsy_family():
+    """falsy / empty / non-mapping documents as top.yaml and as data files (also as an included file)"""
+    out = []
+    for doc in FALSY_DOCS:
+        out.append({"top.yaml": doc, "a.yaml": "k: 1\n"})
+        out.append({"top.yaml": "'*': [a]\n", "a.yaml": doc})
+        out.append({"top.yaml": "'*': [a, b]\n", "a.yaml": "k: 1\ninclude: [c]\n", "b.yaml": "m: 1\n", "c.yaml": doc})
+    return out
+
+
+def longlived_family():
+    """histories for ONE long-lived source: (base tree, ops, merge_lists); every get is judged against the
+    specification of the tree at that moment (the machinery of C12)"""
+    out = []
+    inc = "k: 1\ninclude: [.c]\nm: 1\n"
+    both = {"top.yaml": "'*': [pkg]\n", "c.yaml": "w: root\n", "pkg/c.yaml": "w: sub\n"}
+    # the including file moves between pkg/init.yaml and pkg.yaml at identical content
+    out.append((dict(both, **{"pkg/init.yaml": inc}), [("get", "s1"), ("swap", "pkg"), ("get", "s1"), ("swap", "pkg"), ("get", "s1")], False))
+    out.append((dict(both, **{"pkg.yaml": inc}), [("get", "s1"), ("swap", "pkg"), ("get", "s1"), ("get", "s2")], False))
+    out.append((dict(both, **{"pkg/init.yaml": "include: [..c, .c]\n"}), [("get", "s1"), ("swap", "pkg"), ("get", "s1")], False))
+    # list / set merging pairs: only the LATER file is edited between two gets
+    pair = {"top.yaml": "'*': [a, b]\n", "a.yaml": "l: [1, 2]\nst: !!set {1: null}\nd: {q: [1]}\n", "b.yaml": "l: [2, 3]\nst: !!set {2: null}\nd: {q: [5]}\n"}
+    for ml in (True, False):
+        out.append((pair, [("get", "s1"), ("edit", "b.yaml", "l: [4]\nd: {q: [6]}\n"), ("get", "s1"),
+                           ("edit", "b.yaml", "l: [7]\nst: !!set {3: null}\n"), ("get", "s1"), ("get", "s2")], ml))
+        out.append((dict(pair, **{"a.yaml": "l: [1]\ninclude: [c]\n", "c.yaml": "l: [9]\n"}),
+                    [("get", "s1"), ("edit", "b.yaml", "l: [4]\n"), ("get", "s1"), ("edit", "c.yaml", "l: [8]\n"), ("get", "s1")], ml))
+    # plain edits, deletion, top change
+    base = {"top.yaml": "'*': [a, d]\ns1: [d.x]\n", "a.yaml": "k: 1\ninclude: [d.x]\nm: 1\n",
+            "d/init.yaml": "l: [1]\ninclude: [.x]\nk: 3\n", "d/x.yaml": "m: 2\nn: {p: 1}\n"}
+    for ops in ([("get", "s1"), ("edit", "d/x.yaml", "m: 5\n"), ("get", "s1"), ("get", "s2")],
+                [("get", "s1"), ("delete", "d/x.yaml"), ("get", "s1"), ("edit", "d/x.yaml", "m: 6\n"), ("get", "s1")],
+                [("get", "s2"), ("edit", "top.yaml", "'*': [d, a]\n"), ("get", "s2"), ("swap", "a"), ("get", "s2")],
+                [("get", "s1"), ("pre", 1), ("get", "s1"), ("edit", "a.yaml", "k: 4\n"), ("get", "s1")]):
+        out.append((base, ops, False))
+    return out
+
+
+def run_longlived(c):
+    """the last get of the history on a source that has lived through all of it"""
+    import c12
+    root = yamlfs.new_root()
+    try:
+        tree = dict(c["base"])
+        yamlfs.materialise(tree, root)
+        src = YamlTargetSource({"root_dir": root, "template": "jinja" if c["engine"] else None, "merge_lists": c["ml"],
+                                "merge_sets": c["ms"], "allow_empty_top": c["allow_empty"], "cache_size": 64})
+        pd, pv = yamlfs.PRECEDING[0]
+        r = None
+        for op in c["ops"]:
+            if op[0] == "get":
+                try:
+                    d, _v = src.get_data(op[1], copy.deepcopy(pd), pv)
+                    r = ("ok", d)
+                except Exception as e:     # noqa: BLE001
+                    r = ("exc", exc_code(e))
+            elif op[0] == "pre":
+                pd, pv = yamlfs.PRECEDING[op[1]]
+            else:
+                new = c12.apply_op(tree, op)
+                c12.sync_fs(root, tree, new)
+                tree = new
+        return r
+    finally:
+        shutil.rmtree(root, ignore_errors=True)
+
+
+def longlived_cases(engine_values=(False, True)):
+    import c12
+    for base, ops, ml in longlived_family():
+        for engine in engine_values:
+            for i, op in enumerate(ops):
+                if op[0] != "get" or i == 0:
+                    continue
+                prefix = ops[:i + 1]
+                c = {"base": base, "ops": prefix, "engine": engine, "ml": ml, "ms": True, "allow_empty": False}
+                tree, pd, pv, sysid = c12.snapshots(c)[-1]
+                yield dict(c, tree=tree, sys=sysid, pd=pd, pv=pv, longlived=True)
+
+
 class C11(Check):
     ident = "C11"
     technique = ("Coq proofs about a Gallina model of _DataCompiler (top evaluation, name resolution, relative includes, "
                  "three-way split, depth-first expansion with cycle check) against a cache-free recursive specification, "
                  "+ differential correspondence with the real YamlTargetSource on generated directory trees")
     rule = ("case = (directory tree of <= 8 YAML/Jinja files incl. top.yaml, template engine on/off, merge flags, "
-            "allow_empty_top, system id, preceding data); the revisit family (a non-leaf file reached twice with a conflicting "
+            "allow_empty_top, system id, preceding data); falsy / empty / non-mapping documents as top.yaml and as data files under both settings of allow_empty_top; a "
+            "long-lived-source family (two or three get_data calls on ONE source with an edit / move in between, each judged "
+            "against the specification of the tree at that moment); the revisit family (a non-leaf file reached twice with a conflicting "
             "piece in between: 3 include positions x 3 file kinds x 5 ways of reaching it twice); directed trees for every mechanism x all ids x preceding data x "
             "engine, then seeded random trees; non-trivial = get_data succeeded with >= 2 pieces or raised a "
             "non-top error; distinct by (tree, id, preceding data, flags)")
@@ -144,6 +229,12 @@ class C11(Check):
                 for ml in (False, True):
                     yield {"tree": tree, "engine": engine, "ml": ml, "ms": True, "allow_empty": False,
                            "sys": "s1", "pd": {}, "pv": ""}
+        for tree in falsy_family():
+            for engine in (False, True):
+                for ae in (False, True):
+                    yield {"tree": tree, "engine": engine, "ml": False, "ms": True, "allow_empty": ae,
+                           "sys": "s1", "pd": {}, "pv": ""}
+        yield from longlived_cases()
         for tree in directed():
             for engine in (False, True):
                 for sysid in ("s1", "s2"):
@@ -161,6 +252,8 @@ class C11(Check):
                    "allow_empty": rng.random() < 0.3, "sys": rng.choice(yamlfs.SYSTEMS), "pd": pd, "pv": pv}
 
     def impl(self, c):
+        if c.get("longlived"):
+            return run_longlived(c)
         return run_real(c)
 
     def line(self, c, o):
@@ -193,6 +286,9 @@ class C11(Check):
         return None
 
     def show(self, c):
+        if c.get("longlived"):
+            return {"long_lived_source": True, "base": c["base"], "ops": [list(o) for o in c["ops"]], "engine": c["engine"],
+                    "merge_lists": c["ml"], "merge_sets": c["ms"], "tree_at_last_get": c["tree"], "sys": c["sys"]}
         d = dict(c)
         d["tree"] = {k: ("<dir>" if v is DIR else v) for k, v in c["tree"].items()}
         d["pd"] = pyval.show(c["pd"])
@@ -202,6 +298,16 @@ class C11(Check):
         return entry.get("clause") in failed and len(failed) == 1
 
     def shrink(self, c):
+        if c.get("longlived"):
+            import c12
+            ops = c["ops"]
+            for i in range(len(ops) - 1):
+                cand = dict(c, ops=ops[:i] + ops[i + 1:])
+                tree, pd, pv, sysid = c12.snapshots(cand)[-1]
+                yield dict(cand, tree=tree, sys=sysid, pd=pd, pv=pv)
+            if c["engine"]:
+                yield dict(c, engine=False)
+            return
         t = c["tree"]
         for k in list(t):
             if k != "top.yaml":
